@@ -465,3 +465,64 @@ def replay_c01(prop, goit, j, steps, sbase):
 
 EXTRA["C01"] = extra_c01
 REPLAY["c01"] = replay_c01
+
+
+# ------------------------------------------------------------------ C14: histories whose snapshots recur
+def c14_case(args):
+    goit, seed, sbase = args
+    import random as _r
+    from hist import Edit, c_add, c_commit, c_config, c_init, c_log, c_reset, c_switch, c_switch_create
+    rng = _r.Random(seed)
+    steps = [c_init(), c_config(b"user.name", b"Al Bo"), c_config(b"user.email", b"a@b.cc")]
+    state = {}
+    ncommits = 0
+    for _ in range(rng.randrange(3, 13)):
+        f = rng.choice([b"f", b"g"])
+        v = rng.choice([x for x in (b"one\n", b"two\n", b"") if state.get(f) != x])
+        state[f] = v
+        steps += [Edit("write", f, v), c_add([f]), c_commit(b"c%d" % ncommits)]
+        ncommits += 1
+        r = rng.random()
+        if r < 0.25:
+            steps.append(c_log(rng.choice([None, 0, 1, 2, ncommits, ncommits + 3, 50])))
+        elif r < 0.33 and ncommits >= 2:
+            steps.append(c_reset("soft", b"HEAD@{1}"))
+        elif r < 0.40:
+            steps.append(c_switch_create(b"b%d" % ncommits))
+        elif r < 0.45:
+            steps.append(c_switch(b"main"))
+    steps += [c_log(50), c_log(), c_log(ncommits), c_log(1), c_log(0)]
+    try:
+        recs = runner.run_steps(goit, steps, len(steps), base=sbase)
+        j = runner.judge("C14", recs)
+        return {"oracle": j["oracle"], "corr": j["corr"], "n": len(recs), "steps": [runner.step_to_json(s) for s in steps],
+                "commits": ncommits}
+    except Exception:
+        import traceback
+        return {"oracle": [(-1, "harness error " + traceback.format_exc()[-300:])], "corr": [], "n": 0, "steps": [], "commits": 0}
+
+
+def extra_c14(prop, goit, sbase, seed, tier, model_ok, stats):
+    n = 32 if tier == "quick" else 400
+    with _pool() as pool:
+        results = pool.map(c14_case, [(goit, seed * 7919 + i, sbase) for i in range(n)], chunksize=2)
+    lens = collections.Counter()
+    for res in results:
+        stats["evaluations"] += 1
+        stats["steps"] += res["n"]
+        lens[res["commits"]] += 1
+        if not res["oracle"] and not res["corr"]:
+            stats["validated"] += 1
+            stats["distinct_nontrivial"] += 1
+        steps = [step_from_json(s) for s in res["steps"]]
+        for i, msg in res["oracle"]:
+            stats["oracle_failures"].append({"seed": seed, "steps": steps, "i": i, "msg": msg, "step_name": "log"})
+        for i, dd in res["corr"]:
+            stats["corr_failures"].append({"seed": seed, "steps": steps, "i": i, "diffs": dd, "step_name": "log"})
+    stats["distribution"]["history_length_in_commits"] = dict(lens)
+    stats["samples"].append({"recurring_snapshots": "3-12 commits flipping two files between three contents (later commits "
+                             "repeat the snapshot of earlier ones), resets followed by new commits, branches sharing commits; "
+                             "log -n k for k in {default, 0, 1, 2, len, len+3, 50}"})
+
+
+EXTRA["C14"] = extra_c14
